@@ -15,6 +15,8 @@ use tracing::{Event, Metadata, Subscriber};
 
 #[derive(Clone, Debug, PartialEq, Eq)]
 pub struct TraceEv {
+    /// position in the per-thread total order shared with `Log` entries
+    pub seq: u64,
     /// harness step counter when the event was emitted
     pub step: u64,
     /// name of the enclosing `node` span ("" when emitted outside a host turn)
@@ -39,6 +41,16 @@ impl TraceEv {
 
 thread_local! {
     static STEP: std::cell::Cell<u64> = const { std::cell::Cell::new(0) };
+    static SEQ: std::cell::Cell<u64> = const { std::cell::Cell::new(0) };
+}
+
+/// Next position in the per-thread total order of harness-visible events
+/// (trace events and `Log` entries share it, so the two can be merged).
+pub fn next_seq() -> u64 {
+    SEQ.with(|s| {
+        s.set(s.get() + 1);
+        s.get()
+    })
 }
 
 /// The harness step counter (bumped by the controller before each `Sim::step`).
@@ -158,6 +170,7 @@ impl Subscriber for Recorder {
             .cloned()
             .unwrap_or_default();
         let mut ev = TraceEv {
+            seq: next_seq(),
             step: step(),
             node,
             msg: String::new(),
@@ -212,12 +225,14 @@ pub fn with_recorder<R>(keep_payload: bool, f: impl FnOnce(Handle) -> R) -> R {
 /// position in the vector, and the harness step counter.
 pub struct Log<E> {
     inner: Rc<RefCell<Vec<(u64, E)>>>,
+    seqs: Rc<RefCell<Vec<u64>>>,
 }
 
 impl<E> Clone for Log<E> {
     fn clone(&self) -> Self {
         Log {
             inner: self.inner.clone(),
+            seqs: self.seqs.clone(),
         }
     }
 }
@@ -226,6 +241,7 @@ impl<E> Default for Log<E> {
     fn default() -> Self {
         Log {
             inner: Rc::new(RefCell::new(Vec::new())),
+            seqs: Rc::new(RefCell::new(Vec::new())),
         }
     }
 }
@@ -235,12 +251,20 @@ impl<E> Log<E> {
         Self::default()
     }
     pub fn push(&self, e: E) {
+        self.seqs.borrow_mut().push(next_seq());
         self.inner.borrow_mut().push((step(), e));
+    }
+    /// Entries as (seq, step, event); seq is comparable with `TraceEv::seq`.
+    pub fn take_seq(&self) -> Vec<(u64, u64, E)> {
+        let seqs = std::mem::take(&mut *self.seqs.borrow_mut());
+        let evs = std::mem::take(&mut *self.inner.borrow_mut());
+        seqs.into_iter().zip(evs).map(|(q, (st, e))| (q, st, e)).collect()
     }
     pub fn len(&self) -> usize {
         self.inner.borrow().len()
     }
     pub fn take(&self) -> Vec<(u64, E)> {
+        self.seqs.borrow_mut().clear();
         std::mem::take(&mut *self.inner.borrow_mut())
     }
     pub fn with<R>(&self, f: impl FnOnce(&Vec<(u64, E)>) -> R) -> R {
